@@ -13,8 +13,10 @@ PROP = {'technique': 'property-based testing (rapid): sequential model-based sta
  'rule': 'Sequential: rapid state machine (30 steps) over log/GET traffic[clear]/POST kick/online +-/GET online with good, wrong and '
          'missing secret on 1-4 user ids. Non-trivial: a kick between two reports of one user, or a clear after accepted reports. '
          'Concurrent: 4-16 goroutines x 3-24 ops on 1-3 users; non-trivial: a clearing request whose [call,return] interval overlaps a '
-         'report, or a kick between two reports of one user. E2E: 1-6 clients on 1-3 user ids; non-trivial: at least one disconnect '
-         '(close, kick, or shutdown) of an authenticated connection while another connection stays, or a kick consumed by a real report. '
+         'report, or a kick between two reports of one user. E2E: 1-6 connections on 1-3 user ids, 0-2 of them raw HTTP/3 clients that repeat the auth request (good, bad, other '
+         'user\'s credentials) on an already counted connection or only ever send rejected credentials; non-trivial: at least one disconnect '
+         '(close, kick, or shutdown) of an authenticated connection while another connection stays, a kick consumed by a real report, '
+         'or a repeated auth request on an authenticated connection. '
          'Distinct = distinct op-kind sequences.',
  'assumptions': ['offline notifications are paired with online notifications (the server guarantees it; stray ones are only checked for non-negativity)',
                  'per-user linearizability is checked; atomicity of one snapshot across different users is not part of the statement',
